@@ -6,7 +6,7 @@ rm -rf $T; mkdir -p $T
 rsync -a --exclude target --exclude .git /repo/ $T/repo/
 mkdir -p $T/verif && git -C /verif archive HEAD | tar -x -C $T/verif   # committed state only: edits in progress never leak into a trial
 (cd $T/repo && patch -p1 -s < /verif/seeded/$id/patch.diff) || { echo "patch failed"; exit 2; }
-sed -i "s#path = \"/repo\"#path = \"$T/repo\"#" $T/verif/harness/Cargo.toml
+sed -i "s#path = \"/repo\"#path = \"$T/repo\"#" $T/verif/harness/Cargo.toml $T/verif/gen/shapes/Cargo.toml $T/verif/gen/dropprobe/Cargo.toml
 cd $T/verif
 for p in "$@"; do
   VERIF_REPO=$T/repo bin/check $p --tier ${TIER:-quick} > $T/$p.out 2>&1; rc=$?
